@@ -279,6 +279,10 @@ func (m *Message) unpack(src []byte) (string, error) {
 		return strconv.Itoa(bitmapIdx), fmt.Errorf("failed to unpack bitmap: %w", err)
 	}
 
+	// the bitmap is present in every unpacked message, also when this
+	// message object was used before (bitmap() registers it only once)
+	m.fieldsMap[bitmapIdx] = struct{}{}
+
 	off += read
 
 	for i := 2; i <= m.bitmap().Len(); i++ {
